@@ -43,6 +43,33 @@ CLAIMED = {
  "C09": ("aligned-pair dataflow at call sites, dispatch/constant evaluation, chunk-coverage enumeration over constant-trip loops and the split branches, guarded-decrement dominance, length-guard dominance, loop-progress idiom, goroutine discipline, write effects (M1-M5, LG, T1, G1-G5, W1)",
          "Static decision, for every size, task count and schedule, that points/scalars stay paired through all wrappers/splits/chunks, flags reach the inner routine, every selectable width has an implementation with consistent constants, every chunk is processed and consumed exactly once (chunk j via channel j), v-1 indexes are guarded, length mismatch errors before slicing, the sizing loop makes progress, goroutines are joined and channels fit (so the call cannot block on its own channels). That bucket accumulation/reduction and digit recoding compute sum s_i P_i is not decided.",
          "4 C09, 3.4, 3.6"),
+ "C01": ("schedule extraction vs spec, parallel-index agreement, shape-check dominance, worker-split idiom recognition, join/channel agreement, index-domain type inference incl. compacted positions (F1,F2,F4,F6,S1,G2,G3,M6)",
+         "Static decision, for every number of openings, evaluation-point pattern and CPU count, of the structural completeness clauses: prover and verifier replay the specified schedule; openings handled as aligned triples; every array indexed by an index of its own domain - in particular the inverse denominators by compacted position; the worker split is a ceil-division cover with clipped ranges and one receive per worker. The protocol algebra (that an honest proof satisfies the final equation) is not decided.",
+         "4 C01, 3.2, 3.4 M6"),
+ "C04": ("finite-outcome evaluation of the domain switch, initialiser/immutability of the bound, call/argument identity of the b-vector, verifier dominance rules (D4,B1,W2,F5,F6)",
+         "Static decision that the in-domain/out-of-domain switch happens exactly between 255 and 256 (barycentric branch iff Cmp = +1, bound = VectorLength-1, never written), that prover and verifier derive b from the same function of the same evaluation point with the unit vector at the regular-form index, and the IPA verifier's acceptance/shape structure. That the coefficients interpolate and wrong results are rejected is not decided.",
+         "4 C04"),
+ "C05": ("value-identity dataflow in the constructor, index agreement, guarded-decrement dominance, constant evaluation of window parameters, write-effect immutability (P1,M1,M5,K6,W1,W3)",
+         "Narrow structural claim: the tables Commit uses are built from the published SRS, table i from point i, scalar i meets table i; every table index w-1 is guarded by w != 0 on the same value; window sizes divide 64 and the top window plus carry stays below half range; tables and configuration are immutable after construction. NOT decided: everything numeric - table contents, that the signed recoding sums to the scalar, mixed addition being the group law, linearity.",
+         "4 C05"),
+ "C07": ("exhaustive outcome evaluation of the Equal guard, operand identity of the cross products, edge-sensitive sign-convention and normalisation rules, decoder must-pass rules (E1-E4,D2,W1)",
+         "Static decision that Equal is never true when either side is all-zero (16/16 outcomes), compares p.X*other.Y with p.Y*other.X and writes nothing; that both encoders negate x exactly when y is not the lexicographically largest root and serialise affine coordinates, and the decoders request that same root. Injectivity of the encoding on the group and behaviour over operation histories need the group law and are not decided.",
+         "4 C07"),
+ "C08": ("callee/operand identity table for the wrappers, field/limb-granular alias-hazard dataflow, write-effect analysis (L1,W5,W1,W2,K6)",
+         "Static decision that each wrapper delegates to the matching gnark operation on the matching operands (regular-form scalar, private negated copy in Sub), that operands are never written, that no routine reads an operand coordinate after overwriting the same coordinate of a possibly-aliased output, and that Generator/Identity are immutable with Identity=(0,1,1). The group law itself (in a dependency) is not decided.",
+         "4 C08, 3.1 W5"),
+ "C11": ("field-provenance of the quotient operands, batch index agreement, callee-sequence agreement, length-guard dominance (N1,N2,U4,LG,W1)",
+         "Static decision that both variants compute X/Y of the same element, read only X and Y (so the result is invariant under projective rescaling and (x,y)->(-x,-y) by structure), pair element i with inverse i and output i, convert with the same little-endian reducing pair, and reject a length mismatch before indexing. The numeric value and injectivity are not decided.",
+         "4 C11"),
+ "C17": ("abstract interpretation of the addition chain over exponents, symbolic evaluation of the curve equation, nil-propagation must-pass rules, finite-outcome sign selection (K5,Y1,Y2,D4,W1)",
+         "Static decision that the chain computes z^((Q-1)/2), z^Q, z^((Q+1)/2) for the odd part Q of p-1 computed from the modulus constants, that BaseField2Adicity and the block parameters are consistent, that y^2=(A x^2-1)/(D x^2-1) is formed with A and D in the right places, that nil propagates exactly through GetPointFromX/computeY/SqrtPrecomp with zero for zero, that the requested root is returned on all four sign combinations, and that arguments are not written. The dyadic discrete-log reconstruction (table contents) - hence 'nil exactly for non-residues' as a value statement - is not decided.",
+         "4 C17, 3.5 K5"),
+ "C18": ("affine-form layout comparison of table writers and readers, index-domain typing, operand-orientation and self-term dataflow rules, sign-outcome evaluation (M7,M6,Q1,Q2,D4,W1,W3)",
+         "Static decision that writers and readers of the two concatenated tables agree on positions, midpoints and lengths (negative half selected by the sign alone), that every index is of its array's domain, that numerator and denominator have the same orientation, that the self term is accumulated only for i != index with ratio A'(index)/A'(i) and q[i] of the same i, and that f and the tables are never written. That the formulas are the polynomial quotient/interpolation, and the table contents, are not decided.",
+         "4 C18, 3.4 M7"),
+ "C19": ("reachability (no write before error), de-duplication provenance, layout/sign-convention agreement of batch vs single encoders, index agreement, goroutine discipline (U1-U4,E2,E3,N1,N2,Z1,G1,G2,W1)",
+         "Static decision that batch normalisation is all-or-nothing (no element write can precede an error return), writes exactly the de-duplicated elements (a duplicate-free slice built from map keys filled from all inputs) with inverse i for element i, that batch and single serialisers/map-to-field share convention, normalisation and layout, that the trusted decoder inverts the uncompressed layout, and that workers are joined before return. Position-by-position value equality is not decided.",
+         "4 C19"),
 }
 NA_REASON = "check under construction (DESIGN.md 9.5 build order); no verdict claimed yet"
 
